@@ -268,7 +268,9 @@ func vScenarioC17(rc *runCtx) {
 		rc.violate("adoption", "C17:tunnel-without-connection", "the client's connector outcome was %q but the transfer claims to have used a tunnel", outcome)
 		return
 	}
-	// attackers: no answer, connection closed
+	// attackers: no answer, connection closed (a connection made in the last instant of the transfer gets the
+	// time it takes the accept loop to look at it)
+	x.settle(300 * time.Millisecond)
 	for i, a := range atts {
 		if a.conn == nil {
 			continue
@@ -287,7 +289,7 @@ func vScenarioC17(rc *runCtx) {
 			return
 		}
 		if a.kind != "silent" && a.kind != "right-second" && !a.conn.R.WriterClosed() && !a.conn.Wr.ReaderClosed() {
-			rc.violate("adoption", "C17:not-closed:"+a.kind, "attacker %d (%s at %s) presented a wrong greeting and its connection was left open", i, a.kind, a.target)
+			rc.violate("adoption", "C17:not-closed:"+a.kind, "attacker %d (%s at %s) presented a wrong greeting and its connection was left open (now %v, attacker sent %d bytes, unread by the listener side %d, server exited %v, parked %s)", i, a.kind, a.target, w.Now(), a.conn.Wr.NSentTotal(), a.conn.Wr.Pending(), x.server.Exited, vClip(w.ParkedSummary(), 300))
 			return
 		}
 	}
